@@ -327,7 +327,7 @@ class Ctx:
             t.nontriv(hash(repr(before["tbl"])))
 
 
-def profiles(tier):
+def profiles(tier, light=False):
     P = []
     if tier == "quick":
         for counting in (False, True):
@@ -343,13 +343,15 @@ def profiles(tier):
                           maxcap=4, maxdepth=6, maxout=2, nparts=16))
             P.append(dict(fp={"a": 1, "b": 2, "c": 3, "d": 4, "e": 5, "f": 7, "g": 9}, altvals=[0, 1], bs=3, ms=2, counting=counting, cap0s=[1], autos=[False, True],
                           maxcap=2, maxdepth=8, maxout=1, nparts=8))
+    if light and tier == "quick":
+        P = [dict(p, altvals=p["altvals"][:2] if len(p["fp"]) > 3 and p["bs"] == 1 else p["altvals"]) for p in P]
     return P
 
 
 def run(focus, tier, seed):
     total = Tally(focus)
     jobs = []
-    for p in profiles(tier):
+    for p in profiles(tier, focus in ("C05", "C14", "C19")):
         mod = mc_module(p)
         const = {k: p[k] for k in p if k != "nparts"}
         for i in range(p["nparts"]):
